@@ -8,6 +8,9 @@ package patch
 //                                                d>=0 → from+funcSize+d
 //   c03.zoo <name> <from> <t,t,…> <hexbytes>      a byte-exact shape at a made-up address, absolute trampoline positions
 //   c03.tramp <start> <step> <max>                real fixOriginFuncToTrampoline into the probe's own placeholder functions
+//   c03.small <originOff> <trampOff> <tsize> <hex> real fixOriginFuncToTrampoline on a SMALL hand-built function placed in a
+//                                                fresh executable page (int3 padded, followed by a RET "next function") with
+//                                                an empty trampoline function of tsize bytes in the same page
 // Output ($VERIF_OUT), one line per evaluated case (NOT per request):
 //   <request idx>\t<canonical op line for goomdrv>\t<result of the real code>\t<oracle verdict per trampoline>
 // The op line carries the instruction list exactly as goom's decoder produced it; the verdict is computed with the
@@ -21,7 +24,9 @@ import (
 	"sort"
 	"strconv"
 	"strings"
+	"syscall"
 	"testing"
+	"unsafe"
 
 	"github.com/tencent/goom/internal/bytecode"
 	"github.com/tencent/goom/internal/bytecode/memory"
@@ -323,7 +328,79 @@ func c03PlaceBig() int {
 	return c03sink
 }
 
-func c03Tramp(out *vh.Out, idx int, origin uintptr, places []uintptr) {
+// c03JumpBack states the jump-back clause of the property on what the real fixOriginFuncToTrampoline left in the
+// placeholder, independently of the Lean model: the placeholder starts with the relocated instructions (as the real, pure
+// fixRelativeAddr produces them) and, whenever fewer bytes than the whole function were consumed (n < function size), they
+// are followed by a jump that lands on origin+n (decoded with the reference decoder).
+func c03JumpBack(origin uintptr, block []byte, pl uintptr, res string, after []byte) string {
+	if res != "ok" {
+		return "n/a"
+	}
+	r, data, n := c03Run(origin, block, pl)
+	if !strings.HasPrefix(r, "ok") {
+		return "written-although-relocation-fails"
+	}
+	if len(after) < len(data)+16 {
+		return "n/a"
+	}
+	if string(after[:len(data)]) != string(data) {
+		return "prefix-differs"
+	}
+	if n >= len(block) {
+		return "whole-function"
+	}
+	tail := after[len(data):]
+	ins, err := refx86.Decode(tail[:16], 64)
+	if err != nil {
+		return "missing"
+	}
+	if ins.Op == refx86.JMP {
+		if rel, ok := ins.Args[0].(refx86.Rel); ok {
+			if uint64(pl)+uint64(len(data)+ins.Len)+uint64(int64(rel)) == uint64(origin)+uint64(n) {
+				return "jumps-back"
+			}
+			return "jumps-elsewhere"
+		}
+	}
+	if tail[0] == 0x48 && tail[1] == 0xBA && tail[10] == 0xFF && tail[11] == 0x22 {
+		return "jumps-back-absolute-form"
+	}
+	return "missing"
+}
+
+var c03pages []byte
+
+// c03Page returns a fresh RWX page filled with int3 (never reused: goom caches function sizes by address)
+func c03Page() []byte {
+	if len(c03pages) < 4096 {
+		b, err := syscall.Mmap(-1, 0, 1024*4096, syscall.PROT_READ|syscall.PROT_WRITE|syscall.PROT_EXEC, syscall.MAP_ANON|syscall.MAP_PRIVATE)
+		if err != nil {
+			panic(err)
+		}
+		c03pages = b
+	}
+	pg := c03pages[:4096:4096]
+	c03pages = c03pages[4096:]
+	for i := range pg {
+		pg[i] = 0xCC
+	}
+	return pg
+}
+
+func c03Small(out *vh.Out, idx int, originOff, trampOff, tsize int, fn []byte) {
+	pg := c03Page()
+	base := uintptr(unsafe.Pointer(&pg[0]))
+	copy(pg[originOff:], fn)
+	pg[originOff+len(fn)] = 0xC3 // the "next function"
+	for i := 0; i < tsize-2; i++ {
+		pg[trampOff+i] = 0x90
+	}
+	pg[trampOff+tsize-2] = 0xC3
+	pg[trampOff+tsize] = 0x90 // next function after one int3
+	c03Tramp(out, idx, base+uintptr(originOff), []uintptr{base + uintptr(trampOff)}, 1024)
+}
+
+func c03Tramp(out *vh.Out, idx int, origin uintptr, places []uintptr, window int) {
 	osz, err := bytecode.GetFuncSize(64, origin, false)
 	if err != nil || osz <= 0 || osz > 1<<16 {
 		return
@@ -335,7 +412,6 @@ func c03Tramp(out *vh.Out, idx int, origin uintptr, places []uintptr) {
 	}
 	for _, pl := range places {
 		tsz, _ := bytecode.GetFuncSize(64, pl, false)
-		const window = 4096
 		before := append([]byte(nil), memory.RawRead(pl, window)...)
 		res := func() (r string) {
 			defer func() {
@@ -370,7 +446,7 @@ func c03Tramp(out *vh.Out, idx int, origin uintptr, places []uintptr) {
 			}
 		}
 		op := fmt.Sprintf("c03.fixorigin 0x%x 0x%x %d %s", origin, pl, tsz, strings.Join(items, " "))
-		out.Put(idx, "%s\t%s\tchanged=%d..%d\t%s", op, res, lo, hi, vh.Hex(after[:tsz]))
+		out.Put(idx, "%s\t%s\tchanged=%d..%d\t%s\t%s", op, res, lo, hi, vh.Hex(after[:tsz]), c03JumpBack(origin, block, pl, res, after))
 	}
 }
 
@@ -394,7 +470,7 @@ func TestVerifC03(t *testing.T) {
 				from := fns[k].addr
 				if op.Toks[0] == "c03.tramp" {
 					c03Tramp(out, op.Idx, from, []uintptr{reflect.ValueOf(c03PlaceSmall).Pointer(),
-						reflect.ValueOf(c03PlaceMid).Pointer(), reflect.ValueOf(c03PlaceBig).Pointer()})
+						reflect.ValueOf(c03PlaceMid).Pointer(), reflect.ValueOf(c03PlaceBig).Pointer()}, 4096)
 					done++
 					continue
 				}
@@ -414,6 +490,8 @@ func TestVerifC03(t *testing.T) {
 				c03Case(out, op.Idx, from, block, tramps)
 				done++
 			}
+		case "c03.small":
+			c03Small(out, op.Idx, int(vh.I64(op.Toks[1])), int(vh.I64(op.Toks[2])), int(vh.I64(op.Toks[3])), vh.UnHex(op.Toks[4]))
 		case "c03.zoo":
 			from := uintptr(vh.U64(op.Toks[2]))
 			var tramps []uintptr
